@@ -5,8 +5,8 @@
 src="$1"; out="$2"; jobs="${3:-6}"
 id=$(basename "$src")_$$
 wt=/tmp/seedconfirm_wt_$id
-git -C /repo worktree remove --force $wt >/dev/null 2>&1
-git -C /repo worktree add --detach $wt HEAD >/dev/null 2>&1 || { echo "{\"error\":\"worktree\"}" > "$out"; exit 0; }
+lock=/tmp/seedrun.lock   # concurrent `git worktree add/remove` in one repository race
+flock $lock sh -c "git -C /repo worktree remove --force $wt >/dev/null 2>&1; git -C /repo worktree prune; git -C /repo worktree add --detach $wt HEAD >/dev/null 2>&1" || { echo "{\"error\":\"worktree\"}" > "$out"; exit 0; }
 applies=true; suite=skipped; demo_clean=na; demo_changed=na
 ( cd $wt && git apply "$src/patch.diff" ) 2>/tmp/seedconfirm_err_$id || applies=false
 if $applies; then
@@ -16,5 +16,5 @@ if $applies; then
 fi
 echo "{\"patch_applies\": $applies, \"test_suite_with_change\": \"$suite\", \"demo_exit_on_clean_tree\": \"$demo_clean\", \"demo_exit_with_change\": \"$demo_changed\"}" > "$out"
 rm -f /tmp/seedconfirm_demo0_$id /tmp/seedconfirm_demo1_$id /tmp/seedconfirm_err_$id /tmp/seedconfirm_ctest_$id
-git -C /repo worktree remove --force $wt >/dev/null 2>&1
+flock $lock git -C /repo worktree remove --force $wt >/dev/null 2>&1
 cat "$out"
